@@ -12,7 +12,38 @@ from cv import graphs  # noqa: E402
 from cv.core import VERIF, Check, LeanBuild  # noqa: E402
 from cayleypy import torch_utils  # noqa: E402
 
-THEOREMS = []
+THEOREMS = [
+    "Cv.C03.xorShrLogical_injective",
+    "Cv.C03.mul_injective",
+    "Cv.C03.evalMix_injective_of_check",
+    "Cv.C03.xorShrArith_compl",
+    "Cv.C03.xorShrArith_compl'",
+    "Cv.C03.arith_mix_collides",
+    "Cv.C03.one_word_diff_never_collides",
+    "Cv.C03.combine_seed_injective",
+    "Cv.C03.swapped_words_separable",
+    "Cv.C03.combiner_topbit_family",
+    "Cv.C03.swapped_words_topbit_collide",
+    "Cv.C03.chunked_eq",
+    "Cv.C03.identity_injective",
+    "Cv.C03.key_injective",
+    "Cv.C03.dot_one_coord",
+    "Cv.C03.dot_one_coord_odd",
+    "Cv.C03.gen_fits",
+    "Cv.C03.gen_mix_check",
+    "Cv.C03.gen_combiner_inv",
+    "Cv.C03.gen_mix_injective",
+    "Cv.C03.gen_one_word_diff",
+    "Cv.C03.gen_combine_seed_injective",
+    "Cv.C03.gen_swapped_words",
+    "Cv.C03.gen_swapped_words_topbit_collide",
+    "Cv.C03.uniqueStates_keys_strict",
+    "Cv.C03.uniqueStates_subset",
+    "Cv.C03.uniqueStates_key_mem",
+    "Cv.C03.uniqueStates_mem",
+    "Cv.C03.uniqueStates_nodup",
+    "Cv.C03.uniqueStates_first",
+]
 M64 = (1 << 64) - 1
 T63 = 1 << 63
 
